@@ -37,6 +37,8 @@ type SOp struct {
 	Kind string `json:"kind"` // "att" (single), "atts" (batch), "prop", "restart", "legacy-att", "legacy-prop"
 	Ents []Ent  `json:"ents,omitempty"`
 	// Fault "write": every write to the slashing-protection store fails while this request is served (reads work).
+	// "read": every read of a record fails (writes work); "read-first" / "read-last": only the reads of the records of the
+	// first / last entry's key.
 	Fault string `json:"fault,omitempty"`
 }
 
@@ -45,9 +47,22 @@ type sigFaultKey struct{}
 // InstallSigFaults makes the store hooks honour SOp.Fault. The handler is process-wide; a request is recognised by
 // the value its context carries, so workers running side by side do not disturb each other.
 func InstallSigFaults() {
-	verifhook.SetHandler(func(ctx context.Context, site string, _ ...any) error {
-		if f, _ := ctx.Value(sigFaultKey{}).(string); f == "write" && (site == "store.store" || site == "store.batchstore") {
+	verifhook.SetHandler(func(ctx context.Context, site string, args ...any) error {
+		f, _ := ctx.Value(sigFaultKey{}).(string)
+		if f == "write" && (site == "store.store" || site == "store.batchstore") {
 			return errors.New("injected write failure")
+		}
+		if site == "store.fetch" && strings.HasPrefix(f, "read") {
+			// "read": every record read fails while the request is served (writes work); "read:<hex of a public key>": only
+			// the reads of that key's records.
+			if f == "read" {
+				return errors.New("injected read failure")
+			}
+			if len(args) > 0 {
+				if k, ok := args[0].([]byte); ok && len(k) >= 48 && f == "read:"+hex.EncodeToString(k[:48]) {
+					return errors.New("injected read failure")
+				}
+			}
 		}
 		return nil
 	})
@@ -272,7 +287,14 @@ func (w *SigWorker) Continue(tr *Trace, path []SOp, verifyLast bool) error {
 		last := verifyLast && i == len(path)-1
 		ctx := w.Rig.Ctx
 		if op.Fault != "" {
-			ctx = context.WithValue(ctx, sigFaultKey{}, op.Fault)
+			f := op.Fault
+			switch f {
+			case "read-first":
+				f = "read:" + hex.EncodeToString(accts[op.Ents[0].Key].PubBytes())
+			case "read-last":
+				f = "read:" + hex.EncodeToString(accts[op.Ents[len(op.Ents)-1].Key].PubBytes())
+			}
+			ctx = context.WithValue(ctx, sigFaultKey{}, f)
 		}
 		switch op.Kind {
 		case "restart":
